@@ -12,7 +12,7 @@ Mechanisms under contract (the call-sequence corollary rests on compiler correct
   emit symbols       (C05's emit.step, run here too) one entry per FUNC/PROC directive, in order, with the offset of the next
                      emitted byte = the label's address
   table round trip   emitDebugInfo / load() symbol-table reader as an encode/decode pair over a ghost word stream, loop
-                     bodies extracted, invariants as base/step/exit obligations (symbolic table length)
+                     bodies extracted, invariants as inductive-step obligations (symbolic table length, ghost index)
 """
 import json
 import os
@@ -93,6 +93,78 @@ void h_lookup_last(void) {
 """
 
 
+RT_UNIT = r"""
+#include "cprelude.h"
+bool verif_thrown;
+/* ---- symbol-table round trip: hexasm CodeGen::emitDebugInfo (writer) / hexsim Processor::load (reader) ----
+   The file section after the image is modelled as two ghost streams: the string table (names as ids, in order) and the
+   word stream [N][pairs...]; ostream::write / ifstream::read append / deliver words in order (stubs). */
+typedef struct { int first; unsigned second; } DebugPair;
+#define MAXSYM 100000
+static DebugPair *table; static size_t table_n;            /* CodeGen::debugInfo */
+static int *strfile; static size_t str_n;                  /* names written, in order */
+static uint32_t *symfile; static size_t sym_words;         /* words written after the second count */
+static uint32_t tableIndex;
+#define OUT_STRING(name) do { __CPROVER_assert(str_n < table_n, "string table write in range"); strfile[str_n] = (name); str_n++; } while (0)
+#define OUT_U32(v) do { __CPROVER_assert(sym_words < 2 * table_n, "symbol table write in range"); symfile[sym_words] = (v); sym_words++; } while (0)
+__EMIT_BODIES__
+static size_t rd_pos; static DebugPair *loaded; static size_t loaded_n; static uint32_t numStrings_g;
+#define FILE_READ_U32(p) do { __CPROVER_assert(rd_pos < 2 * table_n, "symbol table read in range"); *(p) = symfile[rd_pos]; rd_pos++; } while (0)
+static int strings_at(uint32_t i) { __CPROVER_assert(i < numStrings_g, "C15: string index read from the file is inside the string table (std::vector::operator[] is unchecked)"); return strfile[i < numStrings_g ? i : 0]; }
+#define STRINGS_AT(i) strings_at(i)
+#define DEBUGINFO_PUSH(name, off) do { __CPROVER_assert(loaded_n < table_n, "push in range"); loaded[loaded_n].first = (name); loaded[loaded_n].second = (off); loaded_n++; } while (0)
+#define DEBUGMAP_SET(name, off) ((void)0)
+__LOAD_BODY__
+#ifdef HEX_CBMC
+size_t nondet_size(void);
+static size_t gi, gg;
+static void rt_state(void) {
+  table_n = nondet_size(); __CPROVER_assume(table_n >= 1 && table_n <= MAXSYM);
+  table = malloc(table_n * sizeof(DebugPair)); strfile = malloc(table_n * sizeof(int)); symfile = malloc(table_n * 8); /* 2 words per symbol; byte-sized form: CBMC 6.11 mis-types `2 * n * sizeof` allocations */ loaded = malloc(table_n * sizeof(DebugPair));
+  __CPROVER_assume(table && strfile && symfile && loaded);
+  gi = nondet_size(); gg = nondet_size(); __CPROVER_assume(gi < table_n && gg < table_n);
+  numStrings_g = (uint32_t)table_n;
+}
+/* writer, string loop: invariant  str_n == i  and  strfile[g] == table[g].first for g < i */
+void h_rt_emit_strings(void) {
+  rt_state(); str_n = gi;
+  __CPROVER_assume(!(gg < gi) || strfile[gg] == table[gg].first);
+  dbg_emit_strings_body(&table[gi]);
+  __CPROVER_assert(str_n == gi + 1, "C15 round trip: one name written per symbol");
+  __CPROVER_assert(!(gg < gi + 1) || strfile[gg] == table[gg].first, "C15 round trip: names written in table order (invariant re-established)");
+}
+/* writer, symbol loop: invariant  tableIndex == i, sym_words == 2i, symfile[2g] == g, symfile[2g+1] == table[g].second for g < i */
+void h_rt_emit_symbols(void) {
+  rt_state(); tableIndex = (uint32_t)gi; sym_words = 2 * gi;
+  __CPROVER_assume(!(gg < gi) || (symfile[2 * gg] == (uint32_t)gg && symfile[2 * gg + 1] == table[gg].second));
+  dbg_emit_symbols_body(&table[gi]);
+  __CPROVER_assert(tableIndex == (uint32_t)(gi + 1) && sym_words == 2 * (gi + 1), "C15 round trip: one (index, offset) pair written per symbol");
+  __CPROVER_assert(!(gg < gi + 1) || (symfile[2 * gg] == (uint32_t)gg && symfile[2 * gg + 1] == table[gg].second), "C15 round trip: pair g is (g, offset of symbol g) (invariant re-established)");
+}
+/* reader: the file holds what the writer's invariants say (instantiated at the pair being read);
+   invariant  loaded_n == i, rd_pos == 2i, loaded[g] == table[g] for g < i */
+void h_rt_load(void) {
+  rt_state(); loaded_n = gi; rd_pos = 2 * gi;
+  __CPROVER_assume(symfile[2 * gi] == (uint32_t)gi && symfile[2 * gi + 1] == table[gi].second && strfile[gi] == table[gi].first);
+  __CPROVER_assume(!(gg < gi) || (loaded[gg].first == table[gg].first && loaded[gg].second == table[gg].second));
+  dbg_load_symbol_body();
+  __CPROVER_assert(loaded_n == gi + 1 && rd_pos == 2 * (gi + 1), "C15 round trip: one symbol loaded per pair read");
+  __CPROVER_assert(!(gg < gi + 1) || (loaded[gg].first == table[gg].first && loaded[gg].second == table[gg].second),
+                   "C15 round trip: the table hexsim loads is the table hexasm recorded, entry by entry, in order");
+#ifdef CANARY
+  __CPROVER_assert(0, "canary: harness end reachable");
+#endif
+}
+#endif
+"""
+
+
+def build_rt_unit(chk):
+    import dirx
+    text = RT_UNIT.replace("__EMIT_BODIES__", dirx.emit_debug_parts(chk.manifest)).replace("__LOAD_BODY__", simx.load_debug_parts(chk.manifest))
+    return chk.write("c15_rt_unit.c", text)
+
+
 def build_sim_unit(chk):
     text = simunit.unit_text(chk, with_trace=True)
     return chk.write("c15_sim_unit.c", text + simunit.HARNESS + C15_HARNESS)
@@ -102,6 +174,7 @@ def main(chk, replay_file):
     tier = chk.tier
     sim = build_sim_unit(chk)
     asm = c05.build_unit(chk)
+    rt = build_rt_unit(chk)
     chk.functions = ["hexsim::Processor::run (loop body) + trace (tuple of the trace line)", "hexsim::Processor::lookupSymbol",
                      "hexasm::CodeGen::emitProgramBin (FUNC/PROC symbol recording)"]
     chk.trusted = ["CBMC 6.11.0 + MiniSat", "extractor rules (simx/dirx)", "boost::format prints the values it is given (EV_FMT/EV_ARG keep the argument tuple)",
@@ -109,7 +182,7 @@ def main(chk, replay_file):
                    "instrEnumToStr maps the opcode enum to its mnemonic (hex.cpp table, not under contract)"]
     chk.assumptions = [
         "NOT decided here: that xcmp places a FUNC/PROC directive at each procedure's first instruction, and that procedure entries in a trace equal the source call sequence (compiler correctness, C01): the property is claimed at the level 'mechanisms proved, corollary assumed'",
-        "symbol-table round trip through the binary (emitDebugInfo / load) is covered by the native stage only (real hexasm -> real hexsim), not by a contract: BOUNDED/sampled, not counted as proved",
+        "symbol-table round trip: the loop bodies of emitDebugInfo and of load()'s symbol reader are under inductive invariants (symbolic table length, ghost index); the enclosing structure of both functions is compared textually; string bytes are dropped (names are ids; the NUL-terminated encoding/decoding of the names themselves is only exercised by the native stage); base cases (empty prefix) and the composition writer-invariant => reader-assumption are paper glue",
         "symbol offsets non-decreasing: follows from the layout chain (C05 pass.chain) + one entry per FUNC/PROC in emission order (emit.step)",
     ]
     if replay_file:
@@ -121,6 +194,10 @@ def main(chk, replay_file):
         J("lookupSymbol.contract", sim, "h_lookupSymbol", enforce="lookupSymbol", loop_contracts=True, functions=["lookupSymbol"]),
         J("lookupSymbol.last", sim, "h_lookup_last", replace=["lookupSymbol"], functions=["lookupSymbol (caller side)"]),
         J("emit.symbols", asm, "h_emit_step", unwind=9, stop_on_fail=True, functions=["emitProgramBin loop body (FUNC/PROC arms)"]),
+        J("roundtrip.emit_strings", rt, "h_rt_emit_strings", functions=["emitDebugInfo string loop body"], note="inductive step, symbolic table length"),
+        J("roundtrip.emit_symbols", rt, "h_rt_emit_symbols", functions=["emitDebugInfo symbol loop body"], note="inductive step, symbolic table length"),
+        J("roundtrip.load", rt, "h_rt_load", functions=["Processor::load symbol loop body"], note="inductive step; file content = writer's invariant instantiated at the pair read"),
+        J("roundtrip.load.canary", rt, "h_rt_load", defines=["CANARY"], kind="canary", checks=[]),
         J("trace.tuple.canary", sim, "h_trace_tuple", defines=["TRACING_INIT=true", "CANARY"], replace=["lookupSymbol"], kind="canary", checks=[]),
         J("lookupSymbol.last.canary", sim, "h_lookup_last", replace=["lookupSymbol"], defines=["CANARY"], kind="canary", checks=[]),
     ]
